@@ -29,6 +29,12 @@ func VerifyEntryAuthor(entry logac.LogEntry, p identityprovider.Interface) error
 		}
 	}
 
+	// the provider vouches for identities of its own type only: an identity that claims another
+	// type would get past the checks below and be accepted on the strength of its id alone
+	if identity.Type != p.GetType() {
+		return fmt.Errorf("identity of type %q cannot be verified", identity.Type)
+	}
+
 	if identity.Type == "orbitdb" {
 		// the identity's signing key signs the id ...
 		signingKey, err := p.UnmarshalPublicKey(identity.PublicKey)
